@@ -32,7 +32,7 @@ func genCase(t *rapid.T) FCase {
 	c.Cfg = gen.GenOutCfg(t, &yes, nil)
 	c.Cmds = gen.GenStream(t, c.Cfg, gen.StreamOpts{MaxCmds: 20, TxnBias: 2, SelectBias: 2, NoiseBias: 3})
 	c.Sched = gen.GenSchedule(t, c.Cfg, true)
-	if rapid.IntRange(0, 2).Draw(t, "pingIdle") == 0 {
+	if rapid.IntRange(0, 2).Draw(t, "pingIdle") == 0 || (len(c.Cfg.DbBlacklist) > 0 && rapid.Bool().Draw(t, "pingIdleInBlacklistedDb")) {
 		// an idle master: keep-alive PINGs surrounded by idle time, in front of SELECT / MULTI
 		c.Cmds, c.Sched = gen.PingIdle(t, c.Cfg, c.Cmds)
 		c.PingIdle = true
